@@ -113,6 +113,20 @@ def _call_name(c: ast.Call) -> str:
     return c.func.id if isinstance(c.func, ast.Name) else ""
 
 
+def splice_starred(e: ast.AST) -> ast.AST:
+    """`f(*(a, b))` -> `f(a, b)` (after a name was replaced by the tuple it stands for)."""
+    for c in ast.walk(e):
+        if isinstance(c, ast.Call) and any(isinstance(x, ast.Starred) and isinstance(x.value, (ast.Tuple, ast.List)) for x in c.args):
+            args = []
+            for x in c.args:
+                if isinstance(x, ast.Starred) and isinstance(x.value, (ast.Tuple, ast.List)):
+                    args += list(x.value.elts)
+                else:
+                    args.append(x)
+            c.args = args
+    return e
+
+
 def flatten(conds: list) -> list[tuple[ast.AST, bool]]:
     """Conjunction of conditions as a list of literals: `a and b` / `not (a or b)` / `not x` / `bool(x)` are taken apart."""
     out: list[tuple[ast.AST, bool]] = []
@@ -456,6 +470,17 @@ class Collections:
                 if elt is not None:
                     return Desc([Contribution(elt, None, [Binder(ast.Name(id=v, ctx=ast.Store()), e.args[1], e)], [], node=e, how="map")])
                 return Desc(unknown=[f"`{norm(e, 60)}`: mapped callable not recognised"])
+            if (n == "starmap" or fn.lib_name(e.func) == "itertools.starmap") and len(e.args) == 2:
+                src = e.args[1]
+                if isinstance(src, ast.Name) and parent(src) is not None:
+                    x_ = fn.expand(src)
+                    src = x_ if isinstance(x_, ast.Call) else src
+                if isinstance(src, ast.Call) and (_call_name(src) == "product" or fn.lib_name(src.func) == "itertools.product") and src.args and not src.keywords:
+                    names = [f"e{next(_fresh)}" for _ in src.args]
+                    elt = self.apply(e.args[0], [ast.Name(id=n_, ctx=ast.Load()) for n_ in names])
+                    if elt is not None:
+                        return Desc([Contribution(elt, None, [Binder(ast.Name(id=n_, ctx=ast.Store()), s_, e) for n_, s_ in zip(names, src.args)], [], node=e, how="starmap")])
+                return Desc(unknown=[f"`{norm(e, 60)}`: starmap over something else than product(...)"])
             if n == "filter" and len(e.args) == 2:
                 v = f"e{next(_fresh)}"
                 ref = ast.Name(id=v, ctx=ast.Load())
@@ -490,7 +515,7 @@ class Collections:
             # straight-line helper returning a collection expression
             if parent(e) is not None:
                 s = fn.summarise(e, stmt_of(e), 6, set())
-                if s is not None and isinstance(s, (*COMPS, ast.List, ast.Tuple, ast.Set, ast.Dict)):
+                if s is not None and isinstance(s, (*COMPS, ast.List, ast.Tuple, ast.Set, ast.Dict, ast.IfExp, ast.BinOp, ast.Name)):
                     return self._describe_copy(s)
         return self._root(e)
 
@@ -601,6 +626,17 @@ class Collections:
             out = self._describe_copy(e.left)
             out.extend(self._describe_copy(e.right))
             return out
+        if isinstance(e, ast.IfExp):
+            a = self._describe_copy(e.body)
+            b = self._describe_copy(e.orelse)
+            for c in a.contribs:
+                c.conds = [(e.test, True)] + c.conds
+                c.nlocal += 1
+            for c in b.contribs:
+                c.conds = [(e.test, False)] + c.conds
+                c.nlocal += 1
+            a.extend(b)
+            return a
         if isinstance(e, ast.Call) and _call_name(e) in COPY_CALLS and len(e.args) == 1:
             return self._describe_copy(e.args[0])
         if isinstance(e, ast.Call) and _is_empty_value(e):
@@ -628,6 +664,9 @@ class Collections:
         if isinstance(f, (ast.Name, ast.Attribute)):
             call = ast.Call(func=f, args=list(args), keywords=[])
             call._orig = (fn.ctx_of(f)[0], ast.Call(func=fn.ctx_of(f)[1], args=[], keywords=[]))  # type: ignore[attr-defined]
+            if isinstance(f, ast.Name) and fn.nested_def(f.id) is not None:
+                s = fn.summarise(call, None, 6, set())
+                return s if s is not None else call
             t = fn.type_of(f)
             for m in (t[1] if t[0] == "union" else [t]):
                 if m[0] == "fn" and not isinstance(m[1].node, ast.Lambda):
@@ -735,6 +774,13 @@ class Collections:
                 continue
             b = c.binders[idx]
             src = b.source
+            # a local that is bound once to product(...) / enumerate(...) / a copy call stands for that call
+            if isinstance(src, ast.Name) and (parent(src) is not None or hasattr(src, "_at")):
+                ds = self.fn.reaching(src.id, src)
+                if len(ds) == 1 and ds[0].kind == "assign" and isinstance(ds[0].value, ast.Call) and src.id not in self.fn.mutated and (_call_name(ds[0].value) in ("product", "enumerate") or self.fn.lib_name(ds[0].value.func) == "itertools.product"):
+                    src = ds[0].value
+                    b = Binder(b.target, src, b.loop, b.root, b.site)
+                    c.binders[idx] = b
             # wrappers around the source
             if isinstance(src, ast.Call) and _call_name(src) in COPY_CALLS and len(src.args) == 1:
                 c.binders[idx] = Binder(b.target, src.args[0], b.loop, False, b.site)
@@ -743,6 +789,20 @@ class Collections:
             if isinstance(src, ast.Call) and (_call_name(src) == "product" or self.fn.lib_name(src.func) == "itertools.product") and isinstance(b.target, (ast.Tuple, ast.List)) and len(b.target.elts) == len(src.args) and not src.keywords:
                 c.binders[idx: idx + 1] = [Binder(t, s, b.loop, False, b.site) for t, s in zip(b.target.elts, src.args)]
                 work.insert(0, c)
+                continue
+            if isinstance(src, ast.Call) and (_call_name(src) == "product" or self.fn.lib_name(src.func) == "itertools.product") and isinstance(b.target, ast.Name) and src.args and not src.keywords and not any(isinstance(x, ast.Starred) for x in src.args):
+                # for pair in product(A, B):  pair stands for (a, b)
+                names = [f"{b.target.id}_{k}__b{next(_fresh)}" for k in range(len(src.args))]
+                tup = ast.Tuple(elts=[ast.Name(id=n_, ctx=ast.Load()) for n_ in names], ctx=ast.Load())
+                env = {b.target.id: tup}
+
+                def sbp(x):
+                    return splice_starred(substitute(copy_node(x, self.fi), env)) if x is not None else None
+
+                nb = [Binder(ast.Name(id=n_, ctx=ast.Store()), s_, b.loop, False, b.site) for n_, s_ in zip(names, src.args)]
+                later = [Binder(bb.target, sbp(bb.source) if any(isinstance(x, ast.Name) and x.id in env for x in ast.walk(bb.source)) else bb.source, bb.loop, bb.root, bb.site) for bb in c.binders[idx + 1:]]
+                nc = Contribution(sbp(c.elt), sbp(c.value), c.binders[:idx] + nb + later, [(sbp(x), p_) for x, p_ in c.conds], c.context, c.node, c.kind, c.how, c.acc, c.nlocal)
+                work.insert(0, nc)
                 continue
             if isinstance(src, ast.Call) and _call_name(src) == "enumerate" and isinstance(b.target, (ast.Tuple, ast.List)) and len(b.target.elts) == 2 and src.args:
                 c.binders[idx] = Binder(b.target.elts[1], src.args[0], b.loop, False, b.site)
